@@ -97,6 +97,7 @@ class Program:
                 sigs = alpha.signatures(mm.tree for mm in self.modules.values())
                 from . import derefactor as _dr
                 _dr.PURE_NAMES = alpha.pure_getters(mm.tree for mm in self.modules.values())
+                _dr.MUTABLE_ATTRS = alpha.mutable_attrs(mm.tree for mm in self.modules.values())
             import copy as _copy
             backup = _copy.deepcopy(m.tree)
             try:
